@@ -108,6 +108,8 @@ def advance_term(fn: FunctionInfo) -> Term:
             terms.add(int_term(fn, e.right))
         elif isinstance(e, ast.BinOp) and isinstance(e.op, ast.Add) and isinstance(e.right, ast.Name) and e.right.id == pc:
             terms.add(int_term(fn, e.left))
+        elif isinstance(e, ast.BinOp) and isinstance(e.op, ast.Sub) and isinstance(e.left, ast.Name) and e.left.id == pc:
+            terms.add(Term("backwards", unparse(e.right)))  # moves the address down: never what emit() produced
         elif isinstance(e, ast.Call) and (call_name(e) or "").endswith("get_address") and len(e.args) == 1:
             terms.add(Term("jump", unparse(e.args[0])))
         else:
